@@ -318,7 +318,7 @@ pub fn run(c: &Ctx) {
     c.set_rule("states: proptest-generated Memfs states over a 3-name namespace (dirs, files with small contents, links to dirs/files/links/missing targets) built from 2..10 creating calls; for EVERY state: every macro (11 checking, 8 acting; write_all also with a non-UTF-8 payload) x every path of the namespace that exists, a missing child, a missing-parent path and the empty string (pairs: copyfile/symlink with a second path; read_all/write_all with matching and different data; readlink/readlink_abs with the right text, a wrong one and a proper-suffix of the right one), each invocation on a freshly rebuilt state under catch_unwind; Memfs always, a seeded part on a tmpfs Stdfs sandbox materialised with std::fs. Oracle: checking macros panic <=> the reference predicate over the pre-state is false and leave the state alone; acting macros: never 'no panic and postcondition false', never 'panic although postcondition holds'; every panic message names the macro and shows the resolved path. Non-trivial = invocation on an existing entry of another kind than the macro asks for, a link, or a near-miss second argument; distinct by (state, macro, arguments).");
     c.assume("no_dir!/no_file! on an existing entry of another kind: pass or panic both admitted (docs and code disagree); copyfile! into an existing directory: not asserted");
     let n = c.tier.pick(1500, 20000);
-    let cfg = GenCfg { names: NAMES3, avoid_through_link: true, plain_spelling: true, wild: false };
+    let cfg = GenCfg { names: NAMES3, avoid_through_link: true, plain_spelling: true, wild: false, handles: false };
     set_shrink_budget(60);
     run_proptest("state", 2001, || prop::collection::vec(setup_spec(), 2..10), n, |specs: &Vec<OpSpec>| {
         // resolve the setup against a scratch instance
